@@ -226,5 +226,61 @@ def cutAtComma (str : Bytes) (n : Nat) : Chk (Bytes × Bytes × Bool) := do
     return (before, after, true)
   return (str, [], false)
 
+/-! ### generic slices, `[8]uint32` -/
+
+def lenG {α : Type} (s : List α) : Int := s.length
+
+def idxG {α : Type} [Inhabited α] (s : List α) (i : Int) : Chk α :=
+  if 0 ≤ i ∧ i < lenG s then .ok (s.getD i.toNat default) else .error ()
+
+def sliceG {α : Type} (s : List α) (lo hi : Int) : Chk (List α) :=
+  if 0 ≤ lo ∧ lo ≤ hi ∧ hi ≤ lenG s then .ok ((s.take hi.toNat).drop lo.toNat) else .error ()
+
+/-- Go's `s[i] = v`. -/
+def setG {α : Type} (s : List α) (i : Int) (v : α) : Chk (List α) :=
+  if 0 ≤ i ∧ i < lenG s then .ok (s.set i.toNat v) else .error ()
+
+/-- `insert[T]` of radix.go (https://go.dev/wiki/SliceTricks#insert). -/
+def insertG {α : Type} [Inhabited α] (s : List α) (i : Int) (v : α) : Chk (List α) := do
+  let s := s ++ [default]                                   -- s = append(s, dummy)
+  let dst ← sliceG s (i + 1) (lenG s)                       -- s[i+1:]
+  let src ← sliceG s i (lenG s)                             -- s[i:]
+  let s := s.take (i + 1).toNat ++ src.take dst.length      -- copy(dst, src): min(len(dst), len(src)) = len(dst) elements
+  setG s i v                                                -- s[i] = v
+
+/-- `headers.First` after the map look-up `v, found := hdrs[k]` (`none` = not found). -/
+def first (v : Option (List Bytes)) : Chk (Option (Bytes × List Bytes)) :=
+  match v with
+  | none => pure none                                       -- !found ||
+  | some v =>
+    if lenG v == 0 then pure none                           -- len(v) == 0
+    else do
+      let x ← idxG v 0                                      -- v[0]
+      let y ← sliceG v 0 1                                  -- v[:1]
+      pure (some (x, y))
+
+/-- `uint32(x)`. -/
+def u32 (x : Nat) : Nat := x % 2 ^ 32
+
+/-- One iteration of `MakeASCIISet`: `as[c/32] |= 1 << (c % 32)` on the `[8]uint32` array. -/
+def asciiStep (as : List Nat) (c : Nat) : Chk (List Nat) := do
+  let w ← idxG as (c / 32 : Nat)                               -- as[c/32]
+  setG as (c / 32 : Nat) (u32 (w ||| u32 (1 <<< (c % 32))))
+
+/-- `MakeASCIISet(chars)`: `chars[i]` for `i := range len(chars)` is the list traversal. -/
+def makeASCIISet : Bytes → List Nat → Chk (List Nat)
+  | [], as => pure as
+  | c :: cs, as => do
+    let as' ← asciiStep as c
+    makeASCIISet cs as'
+
+/-- `as.Contains(c)`: `(as[c/32] & (1 << (c % 32))) != 0`. -/
+def asciiContains (as : List Nat) (c : Nat) : Chk Bool := do
+  let w ← idxG as (c / 32 : Nat)
+  pure ((w &&& u32 (1 <<< (c % 32))) != 0)
+
+def zero8 : List Nat := [0, 0, 0, 0, 0, 0, 0, 0]
+
+
 end Ix
 end Cors
